@@ -20,10 +20,10 @@ type node struct {
 	keys  []string
 }
 
-func nNull() *node         { return &node{kind: 'n'} }
-func nBool(b bool) *node   { return &node{kind: 'b', b: b} }
-func nInt(i int) *node     { return &node{kind: 'i', i: i} }
-func nStr(s string) *node  { return &node{kind: 's', s: s} }
+func nNull() *node            { return &node{kind: 'n'} }
+func nBool(b bool) *node      { return &node{kind: 'b', b: b} }
+func nInt(i int) *node        { return &node{kind: 'i', i: i} }
+func nStr(s string) *node     { return &node{kind: 's', s: s} }
 func nList(it ...*node) *node { return &node{kind: 'l', items: it} }
 
 // nMap builds a map from alternating keys and values.
